@@ -450,6 +450,11 @@ where
         i += 1;
     }
     assert!(queues_ok(&w), "[C01] queues consistent (empty) after close");
+    let mut i = 0;
+    while i < 2 {
+        assert!(w.rf[i].is_terminated() == (rst[i] == 3) && w.sf[i].is_terminated() == (sst[i] == 3), "[C17] close() terminates no future: a woken future is not terminated until its poll returned Ready");
+        i += 1;
+    }
 }
 
 fn check_stream<const C: usize>(rst: [u8; 2], rq: &[usize], sst: [u8; 2], sq: &[usize])
@@ -508,8 +513,13 @@ fn check_send_poll_after_completion() {
 fn fresh_futures_are_not_terminated() {
     let ch = Ch::<1>::new();
     let r = ch.receive();
-    let s = ch.send(kani::any());
+    let v: u8 = kani::any();
+    let s = ch.send(v);
     assert!(!r.is_terminated() && !s.is_terminated(), "[C17] is_terminated() is false from creation");
+    assert!(r.wait_node.state == RecvPollState::Unregistered && r.wait_node.task.is_none(), "[C10] a new receive future holds no notification and no place in the queue");
+    assert!(s.wait_node.state == SendPollState::Unregistered && s.wait_node.task.is_none() && s.wait_node.value == Some(v), "[C08] [C09] a new send future holds exactly its value; the send takes effect at its first poll");
+    let st = ch.inner.lock();
+    assert!(!st.is_closed && st.buffer.len() == 0 && st.receive_waiters.is_empty() && st.send_waiters.is_empty(), "[C11] [C01] a new channel is open and empty; creating futures does not touch it");
 }
 
 #[kani::proof]
